@@ -227,6 +227,28 @@ def old_zone(i, footer, last):
     return "gen/old-%d-%s" % (i, footer.decode().replace("/", "_")), tzif(2, [(last, 1)], types, footer)
 
 
+def desig_zones():
+    """Recorded-data-only zones in which an entry that changes the designation (or the DST flag) ALONE stands within an offset
+    change's reach - the literal reading of "changes of the offset farther apart than the sum of their sizes" (Zone!WellFormedD)."""
+    T, U = 1130652000, 1143961200         # 2005-10-30 06:00Z (fall back), 2006-04-02 07:00Z (spring forward)
+    L = (-17762, False, b"LMT")
+    E, D = (-18000, False, b"EST"), (-14400, True, b"EDT")
+    X, XD, EI = (-18000, False, b"XST"), (-14400, True, b"XDT"), (-18000, True, b"EST")
+    base = [(-2717650800, 1), (1112511600, 2)]          # LMT -> EST 1883, EST -> EDT April 2005
+    fams = [
+        ("after-fall-back", [L, E, D, X], base + [(T, 1), (T + 1800, 3)]),
+        ("after-spring-forward", [L, E, D, XD], base + [(T, 1), (U, 2), (U + 1800, 3)]),
+        ("before-spring-forward", [L, E, D, X], base + [(T, 1), (U - 1800, 3), (U, 2)]),
+        ("before-fall-back", [L, E, D, XD], base + [(T - 1800, 3), (T, 1)]),
+        ("dst-flag-after-fall-back", [L, E, D, EI], base + [(T, 1), (T + 600, 3)]),
+        ("two-after-fall-back", [L, E, D, X, EI], base + [(T, 1), (T + 900, 3), (T + 2700, 4)]),
+    ]
+    out = []
+    for i, (what, types, trans) in enumerate(fams):
+        out.append(("gen/desig-%d-%s" % (i, what), tzif(2, trans, types, b"")))
+    return out
+
+
 def write_corpus(outdir, seed, n):
     os.makedirs(outdir, exist_ok=True)
     r = random.Random(seed)
